@@ -7,15 +7,19 @@ META = {
         "fchmod/chmod/fchown/chown/utime, pread64, time, gettext, com_err",
         "pread64 returns min(count, size - offset) bytes (no short read in the middle of a regular file): copy_file_chunk "
         "silently skips the rest of a 64 KiB round after a short read",
+        "lseek_copy: lseek(SEEK_DATA/SEEK_HOLE) answers as lseek(2) documents from a list of <= 2 data segments; copy_file_chunk cut "
+        "(harness copy_chunk). populate_entry: scandir delivers one entry, lstat its symbolic stat; creators, set_inode_extra, "
+        "set_inode_xattr, path_append cut to recording stubs (harnesses mknod, inode_extra, copy_chunk cover the first three)",
         "host S_IF*/S_I* constants equal the LINUX_S_* values (asserted in file_type for this host), little-endian host",
         "copy_file_chunk: block size 4 bytes, host file <= 12 bytes (fs->blocksize is a run-time field; COPY_FILE_BUFLEN "
         "stays 65536, reached through the read count only)",
     ],
     "outside": [
-        "tree walking (__populate_fs, scandir order), hard-link detection by (dev, ino), path handling, libarchive input",
+        "tree walking beyond one entry (__populate_fs over real scandir order, depth, recursion into non-empty directories), path "
+        "handling (path_append cut), the /lost+found special case, libarchive input; hard-link tables beyond 2 records / growth by realloc",
         "extended attribute transfer (set_inode_xattr)", "symlink targets (do_symlink_internal -> ext2fs_symlink), mkdir",
-        "try_lseek_copy / try_fiemap_copy extent enumeration (SEEK_DATA/SEEK_HOLE, FIEMAP) and the i_size set by do_write_internal; "
-        "inline-data files",
+        "try_fiemap_copy (FIEMAP enumeration), more than 2 data segments in try_lseek_copy, copy_file's fallback order, the i_size set "
+        "by do_write_internal; inline-data files",
         "the real ext2fs_file_write / block allocation behind the copy (C09), directory entries (C10)",
         "rdump_inode / rdump_dirent recursion, dump_file's read loop, rdump_symlink; only fix_perms is covered of extraction",
         "consistency (e2fsck clean) and byte-for-byte reproducibility of the produced image",
@@ -62,6 +66,19 @@ HARNESSES = [
          bound="block size 4, host file of 0..12 bytes with symbolic content, chunk start 0 / 4 / 1 (unaligned), any end < "
                "start + 128 KiB (two buffer rounds), one fault class per query at a symbolic call number, partial writes of "
                "1..4 bytes"),
+    dict(name="lseek_copy", src="lseek_copy.c", funcs=["try_lseek_copy"],
+         cut_statics={"misc/create_inode.c": ["copy_file_chunk"]},
+         configs=[{"BSZ": 4096, "NSEG": 2}, {"BSZ": 1024, "NSEG": 2}, {"BSZ": 65536, "NSEG": 1}, {"BSZ": 4096, "NSEG": 0}],
+         unwind=5, unwindset=["stub_seek.0:3", "stub_seek.1:3", "main.0:3"], backends=["default", "kissat", "z3"],
+         bound="host file of up to 2^40 bytes, 0..2 data segments at any 64-bit offsets, block size 1k/4k/64k, k-th chunk copy "
+               "may fail, SEEK_DATA supported or not"),
+    dict(name="populate_entry", src="populate_entry.c", funcs=["__populate_fs", "is_hardlink", "add_link", "ext2_file_type"],
+         cut_statics={"misc/create_inode.c": ["path_append", "set_inode_xattr", "set_inode_extra", "do_write_internal",
+                                              "do_mknod_internal", "do_symlink_internal", "do_mkdir_internal"]},
+         unwind=4, unwindset=["main.%d:6" % i for i in range(8)] + ["is_hardlink.0:4", "__populate_fs.0:3", "__populate_fs.1:3"],
+         backends=["default", "kissat"],
+         bound="one directory entry with symbolic st_mode (7 handled types) / st_nlink / st_dev / st_ino / st_rdev; hard-link "
+               "table of 0..2 symbolic records; parent, root and inode numbers symbolic"),
     dict(name="fix_perms", src="fix_perms.c", funcs=["fix_perms", "mode_xlate"],
          unwind=4, unwindset=["main.0:129", "main.1:129", "main.2:129", "mode_xlate.0:11"],
          backends=["default", "kissat"], bound="every 128-byte inode, descriptor open or not"),
@@ -75,8 +92,9 @@ MANIFEST = {
             "inode transfer of set_inode_extra (owner, group, 12 mode bits, three times, nothing else touched), the type "
             "table, device-number encoding of do_mknod_internal read back the kernel's way, hole detection and byte "
             "placement of copy_file_chunk against a model file, the inode -> host transfer of fix_perms, and the "
-            "timestamp macros against the kernel's 34-bit encoding. Tree walking, hard links, xattrs, symlinks, the "
-            "extent enumeration of sparse files, rdump recursion and image reproducibility are outside.",
+            "timestamp macros against the kernel's 34-bit encoding. The data-segment walk of try_lseek_copy (64-bit offsets, outward block rounding) "
+            "and the per-entry hard-link step of __populate_fs are decided for one entry / two segments. Whole-tree walking, xattrs, "
+            "symlink targets, FIEMAP, rdump recursion and image reproducibility are outside.",
     "note": "Trusted: CBMC's C semantics, the recording stubs for library and libc callees, the harness's restatement of "
             "the on-disk inode layout and of the kernel's timestamp/device decoding. The 28-bit mask of ext2fs_inode_xtime_set found by the xtime "
             "queries is repaired (fix 4ac44571). fix_perms needs the generated lib/ss/ss_err.h (setup.sh provides it).",
